@@ -18,11 +18,15 @@ def run():
     conn = {"pingMs": [100, 100], "dialDelayMs": 40}
     scs = []
     for pol in ["immediate", "none"]:
-        cfg = U.write_cfg("Upstream_c02_%s.cfg" % pol, policy=pol, maxw=2 if quick else 3, sizes=(1,), zero=False, reliable=True,
-                          faults=1 if quick else 2, dups=0, acks=2, grants=True, conflicts=1, writers=("W1",),
-                          flushers=("F1",) if pol == "none" else (), invs=U.INV_C02)
-        ctx.l1("Upstream", cfg, timeout=2400)
-        os.remove(os.path.join(SPEC, cfg))
+        # thorough bounds fitted to measured state counts: (2 writes, 2 failures, conflict) = 4.1 M distinct states / 33 s and
+        # (3 writes, 1 failure) = 3.4 M / 46 s; the product (3 writes, 2 failures) did not finish in 40 min
+        variants = [dict(maxw=2, faults=1, conflicts=1, grants=True)] if quick else \
+                   [dict(maxw=2, faults=2, conflicts=1, grants=True), dict(maxw=3, faults=1, conflicts=0, grants=False)]
+        for vi, v in enumerate(variants):
+            cfg = U.write_cfg("Upstream_c02_%s_%d.cfg" % (pol, vi), policy=pol, sizes=(1,), zero=False, reliable=True, dups=0, acks=2,
+                              writers=("W1",), flushers=("F1",) if (pol == "none" and v["maxw"] == 2) else (), invs=U.INV_C02, **v)
+            ctx.l1("Upstream", cfg, timeout=2400)
+            os.remove(os.path.join(SPEC, cfg))
         gcfg = U.write_cfg("Upstream_c02_gen_%s.cfg" % pol, policy=pol, maxw=4, sizes=(1, 2), zero=False, reliable=True, faults=2,
                            dups=1, acks=4, grants=True, conflicts=1, writers=("W1", "W2"), flushers=("F1",) if pol == "none" else (),
                            view=False, gen=True, invs=U.INV_C02)
